@@ -9,7 +9,7 @@
    wlog s = (waiter, payload visible at the release), sublog s = successful subscriptions,
    elog s = access log of the awaiter nodes (ENext/EClear = the walker reads/clears _next, EResume = resume(),
    EFree = the awaiter's storage is gone, EFrame r = async frame destroyed while ready = r). *)
-From Cocls Require Import Base BaseProofs CellDefs CellProofs Cell2Proofs.
+From Cocls Require Import Base BaseProofs CellDefs CellProofs Cell2Proofs AwDefs AwProofs.
 Local Open Scope Z_scope.
 
 (* at most once: a waiter occurs at most once in slot ∪ walk list ∪ suspend point ∪ released; its release count is <= 1
@@ -99,6 +99,60 @@ Print Assumptions c02_async_frame_after_ready.
 Theorem c02_run_reachable : forall ops fuel sched, reachable ops (fst (run_sched fuel (init ops) sched [])).
 Proof. exact run_reachable. Qed.
 Print Assumptions c02_run_reachable.
+
+(* ---------- RE-USED awaiter objects (AwDefs.v: hand-written awaiters and call_fn_future_awaiter performing several
+   waits in sequence on several futures, already resolved or pending; every op sequence) ---------- *)
+
+(* the entry assert of subscribe_check_ready never fires and no CAS ever matches the ready marker *)
+Theorem c02_reuse_never_errs : forall isvoid ops, a_err (fst (arun isvoid ainit ops)) = false.
+Proof. exact reuse_never_errs. Qed.
+Print Assumptions c02_reuse_never_errs.
+
+(* a re-used awaiter's link field is reset before each subscription attempt: whenever the object is not linked
+   (fresh, refused earlier, released earlier) its _next is null *)
+Theorem c02_link_reset_before_subscription : forall isvoid ops a w,
+  nth_error (aws (fst (arun isvoid ainit ops))) a = Some w -> aw_cell w = None -> aw_next w = LNull.
+Proof. exact link_reset_before_subscription. Qed.
+Print Assumptions c02_link_reset_before_subscription.
+
+(* hence a wait on an already resolved future is refused, the callback runs exactly once with the future's payload,
+   the link field is null again and the future is untouched *)
+Theorem c02_wait_on_resolved_is_refused : forall isvoid s a c w cl,
+  AInv s -> nth_error (aws s) a = Some w -> aw_cell w = None -> nth_error (acells s) c = Some cl -> ac_slot cl = None ->
+  let r := do_wait isvoid s a c in
+  snd r = 0 :: Z.of_nat a :: okind isvoid (ac_pay cl) /\ acells (fst r) = acells s /\
+  nth_error (aws (fst r)) a = Some (mkAw LNull None (S (aw_waits w)) (S (aw_runs w))).
+Proof. exact wait_on_resolved_is_refused. Qed.
+Print Assumptions c02_wait_on_resolved_is_refused.
+
+(* each wait of a re-used awaiter is released exactly once: callbacks run = waits started, except for the one wait
+   that is still parked, exactly once, in a pending future whose promise is still armed *)
+Theorem c02_each_wait_released_exactly_once : forall isvoid ops a w,
+  let s := fst (arun isvoid ainit ops) in
+  nth_error (aws s) a = Some w ->
+  match aw_cell w with
+  | None => aw_runs w = aw_waits w
+  | Some c => aw_waits w = S (aw_runs w) /\
+              exists cl l, nth_error (acells s) c = Some cl /\ ac_slot cl = Some l /\ ac_prom cl = true /\
+                           count_occ Nat.eq_dec l a = 1%nat
+  end.
+Proof. exact each_wait_released_exactly_once. Qed.
+Print Assumptions c02_each_wait_released_exactly_once.
+
+(* once every future is resolved no wait is open *)
+Theorem c02_reuse_all_resolved_all_answered : forall isvoid ops,
+  let s := fst (arun isvoid ainit ops) in
+  (forall c cl, nth_error (acells s) c = Some cl -> ac_slot cl = None) ->
+  forall a w, nth_error (aws s) a = Some w -> aw_cell w = None /\ aw_next w = LNull /\ aw_runs w = aw_waits w.
+Proof. exact all_resolved_all_answered. Qed.
+Print Assumptions c02_reuse_all_resolved_all_answered.
+
+(* non-vacuity: the scenario of seeded change C02-3 (refused, re-used on a resolved future, then on a pending one) *)
+Example c02_reuse_nonvacuous :
+  aw_run false [[22;0;0;10]; [20;0;0]; [22;1;0;20]; [20;0;1]; [20;0;2]; [22;2;0;30]; [21;0;1;5]; [21;0;1;6]; [21;0;0;0]; [22;3;0;7]]
+  = [[1]; [0;0;1;10]; [1]; [0;0;1;20]; [1]; [1;0;1;30]; [0;2;1;5]; [0;2;1;6]; [1]; [1;2;1;7];
+     [0]; [0]; [0]; [0]; [0]; [1;1;10]; [1;1;20]; [1;1;30]; [10;0;0]].
+Proof. vm_compute. reflexivity. Qed.
 
 (* non-vacuity: 4 waiters of different kinds race with an async completion; two subscribe before the exchange,
    one is refused by the CAS, one finds the future ready; the run ends in a terminal state *)
